@@ -10,6 +10,7 @@ ALPHABETS = {
     "layout": ["a", "1", " ", "\t", "\n", "\\", "/", "*", '"', "'"],
     "altspell": ["?", "/", "\n", "<", ":", "%", ">", "=", "#", "(", "!", "'", "-", "a"],
     "numbers": ["0", "1", "9", "x", "b", "e", "p", ".", "+", "-", "u", "l", "f", "a"],
+    "quotes": ["L", "u", "8", "'", '"', " ", "a", "=", "\\", "\n", "l"],
     "operators": ["+", "-", "<", ">", "=", "&", "|", "!", ".", "*", "/", "%", "^", "a"],
 }
 
